@@ -55,6 +55,9 @@ CLAIMS = {
     "C16": ("every name of Results_Available() of every simulation kind (Elastic static / dynamic, Thermal, Beam EB / Timoshenko 1-3D, WeakForms dof_n 1-3, PhaseField, HyperElastic static / dynamic, InElastic with a committed plastic state) is requested in node and element form on states the harness wrote itself (mutually different random u, v, a; affine displacements) and held against a relation table: components and norms against the harness' own arrays; element form = mean over the element's nodes, node form = mean over the surrounding elements (recomputed from the connectivity, mixed-group meshes and hand-built grids whose node / element counts divide one another included); tensor components against the tensor result, per-Gauss-point fields, the closed-form strain of the affine state and C : strain; von Mises taken by the harness at every integration point then averaged; constants through the conversions; Wdef = u'Ku/2 = sum(Wdef_e); Calc_Reaction = K u + C v + M a on arbitrary states and the reaction / applied-load balance on equilibrium states (Newmark for the dynamic balance)",
             "meshes <= ~60 elements; 2-D equivalent stress = in-plane von Mises of the advertised 3-component tensor; error estimator (ZZ1), hyperelastic energy W and crack energy are only required to be finite, retrievable and convertible; beam section stresses are compared with the simulation's own Gauss-point field",
             "relation-table oracle evaluated at the Result() boundary on harness-written states"),
+    "C17": ("states: strain arrays whose Gauss points mix, inside one element, zero / +-hydrostatic / +-uniaxial / two equal largest or smallest / pure shear / nearly repeated (gap 1e-14..1e-6) / generic tensors, axis-aligned and rotated, are given to Calc_C, Calc_Sigma_e_pg and Calc_psi_e_pg of all 14 splits (isotropic, transversely isotropic, orthotropic and fully anisotropic laws; plane stress, plane strain, 3-D) and compared with an independent numpy.linalg.eigh decomposition of the tensor each split decomposes: finiteness, sigma+ + sigma- = C:eps, C+ + C- = C, psi+ + psi- = eps:C:eps/2, the split's psi+ / psi- / sigma+ written from the positive parts, P+ v against the eigh positive part. histories: load / unload / reload / compression programs and load-free runs on small meshes (single and mixed element groups) for the three irreversibility solvers x AT1 / AT2 x eight splits; after each Solve + Save_Iter the stored history field (per Gauss point), the driving energy per element and, for the damage-based solvers, the nodal damage are compared with the previous saved step; zero loading keeps the damage at zero",
+            "homogeneous materials; nearly repeated principal values held to 1e-6 instead of 1e-9; histories <= 8 load steps on meshes <= ~50 elements; AT1 from the virgin state with the History / HistoryDamage solvers is a recorded known finding (singular damage system)",
+            "reference-model oracle (independent eigen-decomposition) on executed split routines + monotonicity trace checker over saved phase-field histories"),
 }
 
 
